@@ -21,6 +21,13 @@ CHECKS = {
         "trusted: DuckDB result order under ORDER BY, fixture rows; state abstraction (kind, shape, rows handed out, arraysize) cross-checked by expanding two histories per state",
         "explicit-state model checking (BFS to fixpoint) of the real cursor against a reference model",
     ),
+    "C04": (
+        "E1-bfs",
+        "model_checking",
+        "depth-bounded explicit-state search over table states (row multisets): every DML statement of a written-out grammar (INSERT forms, UPDATE/DELETE x three-valued predicate grammar, TRUNCATE) executed on the real cursor from every reached state and compared with a list-based SQL reference; DDL status texts by complete enumeration of a statement list",
+        "trusted: raw DuckDB for state set-up and observation; reference evaluator mc/ref/sql3vl.py (selftested); not demanded: TRUNCATE status row, rowcount of DDL",
+        "explicit-state model checking (depth-bounded BFS with state dedupe) against a 3-valued-logic reference model",
+    ),
 }
 
 NOT_BUILT = "check not built yet in this round (planned per DESIGN.md §3); no claim is made"
